@@ -57,8 +57,45 @@ def run_scenarios(prop):
     return res
 
 
+# thorough tier: the whole witness scenario library of the property runs unconditionally, the generic sweeps with a deeper bound
+THOROUGH_ENV = {'VERIF_C11_DEPTH': '7', 'VERIF_C13_DEPTH': '6', 'VERIF_F11_ROUNDS': '200000'}
+
+
+def run_library_thorough(prop):
+    import witness
+    old = {k: os.environ.get(k) for k in THOROUGH_ENV}
+    os.environ.update(THOROUGH_ENV)
+    try:
+        w = witness.run([prop], timeout=3000)
+    finally:
+        for k, v in old.items():
+            if v is None:
+                os.environ.pop(k, None)
+            else:
+                os.environ[k] = v
+    if not w.get('files'):
+        return []
+    entry = {'name': 'witness-library (thorough tier, bounded)', 'what': 'every concrete scenario and generic sweep kept for %s, deeper bounds %s' % (prop, THOROUGH_ENV),
+             'bounded': True, 'wall_s': w.get('wall_s'), 'backends': ['cargo-test (bounded)'], 'obligations': 0, 'discharged': 0,
+             'files': w.get('files'), 'ran': w.get('ran'), 'passed': w.get('passed'), 'samples': ['bounded scenario library for %s' % prop],
+             'trusted': ['bounded: covers only the stated input spaces']}
+    if w.get('failed'):
+        f0 = w['failed'][0]
+        entry['verdict'] = 'failed'
+        entry['violations'] = [{'unit': 'scenario', 'fn': f0.get('scenario'), 'key': 'bounded:' + f0['test'], 'kind': 'bounded-scenario', 'label': None, 'props': [prop],
+                                'message': 'bounded scenario fails on the real code', 'spans': [], 'src': None, 'rendered': f0['output']}]
+    elif w.get('inconclusive') or not w.get('ran'):
+        entry['verdict'] = 'inconclusive'
+        entry['undecided'] = ['scenario library did not run: %s' % w.get('inconclusive')]
+    else:
+        entry['verdict'] = 'passed (bounded)'
+    return [entry]
+
+
 def run(prop, tier, results):
     res = run_scenarios(prop)
+    if tier == 'thorough':
+        res += run_library_thorough(prop)
     if prop not in HARNESSES or (tier != 'thorough' and prop not in QUICK):
         return res
     for path, what, bounded in HARNESSES[prop]:
